@@ -4,11 +4,7 @@ class CM:
         return self
     def __exit__(self, *a):
         return False
-class MM:
-    def __matmul__(self, o):
-        return self
-    def __imatmul__(self, o):
-        return self
+from vsupport import MM
 def deco(f):
     return f
 @deco
